@@ -84,6 +84,7 @@ class SCache:
 
 class GameRun:
     """one run of the real solve() on (structure, rewards, mode) plus lazily derived exact objects"""
+    _c14 = None
 
     def __init__(self, sc, rewards, prune, confirm=True, outcome=None):
         self.sc = sc
